@@ -14,6 +14,13 @@ Definition gen_positions (g : gen) : option playout :=
   else if g_kind g =? 2 then positions_s (g_s g) (g_w g)
   else None.
 
+Fixpoint extras_eqb (a b : list (Z * region)) : bool :=
+  match a, b with
+  | [], [] => true
+  | x :: a', y :: b' => (fst x =? fst y) && region_eqb (snd x) (snd y) && extras_eqb a' b'
+  | _, _ => false
+  end.
+
 Definition opt_playout_eqb (a : option playout) (b : playout) : bool :=
   match a with Some x => playout_eqb x b | None => false end.
 
@@ -30,7 +37,12 @@ Definition registered_ok (g : gen) : bool :=
        | Some P => wf_p P && playout_eqb P (pr_layout p) && opt_playout_eqb (g_traced g) (pr_layout p)
        | None => false
        end
-     else if g_kind g =? 4 then opt_playout_eqb (g_traced g) (pr_layout p)
+     else if g_kind g =? 4 then
+       match positions_rb (g_c g) (g_rb g) with
+       | Some (P, X) => playout_eqb P (pr_layout p) && opt_playout_eqb (g_traced g) (pr_layout p) &&
+                        extras_eqb X (pr_extra p)
+       | None => false
+       end
      else (g_kind g =? 0) || (g_kind g =? 3))
   end.
 
@@ -56,6 +68,7 @@ Definition derive_ok (g : gen) : bool :=
 Definition demux_gen (g : gen) (lookup : lookup_t) (recs : list mate) : option (outcome (list orec)) :=
   if g_kind g =? 1 then Some (demux_contig (g_c g) (g_w g) lookup recs)
   else if g_kind g =? 2 then Some (demux_scattered (g_s g) (g_w g) lookup recs)
+  else if g_kind g =? 4 then Some (demux_rb (g_c g) (g_rb g) lookup recs)
   else None.
 
 (* ------------------------------------------------------------------ I/O glue *)
@@ -78,14 +91,15 @@ Definition dec_olist (v : Val) : option (list Z) :=
 Definition dec_orec (v : Val) : orec :=
   mkO (getZs (nthV 0 v)) (getZs (nthV 1 v)) (getZs (nthV 2 v)) (getZs (nthV 3 v)) (getZ (nthV 4 v))
       (dec_olist (nthV 5 v)) (dec_olist (nthV 6 v)) (dec_olist (nthV 7 v)) (dec_olist (nthV 8 v))
-      (dec_olist (nthV 9 v)) [].
+      (dec_olist (nthV 9 v)) (map (fun e => (getZ (nthV 0 e), getZs (nthV 1 e))) (getL (nthV 10 v))).
 
 Definition of_oz (o : option Z) : Val := match o with Some z => VL [VZ z] | None => VL [] end.
 Definition of_slice (s : pslice) : Val := VL [of_oz (ps_start s); of_oz (ps_stop s)].
 Definition of_olist (o : option (list Z)) : Val := match o with Some l => VL [ofZs l] | None => VL [] end.
 Definition of_orec (o : orec) : Val :=
   VL [ofZs (o_seq o); ofZs (o_qual o); ofZs (o_bc o); ofZs (o_BC o); VZ (o_bi o);
-      of_olist (o_RX o); of_olist (o_RQ o); of_olist (o_rS o); of_olist (o_lh o); of_olist (o_lq o)].
+      of_olist (o_RX o); of_olist (o_RQ o); of_olist (o_rS o); of_olist (o_lh o); of_olist (o_lq o);
+      VL (map (fun e => VL [VZ (fst e); ofZs (snd e)]) (o_extra o))].
 Definition of_outcome (o : outcome (list orec)) : Val :=
   match o with
   | Accept l => VL [VZ 0; VL (map of_orec l)]
@@ -95,7 +109,7 @@ Definition of_outcome (o : outcome (list orec)) : Val :=
 
 Definition dummy_gen : gen :=
   mkG (SName []) 9 (mkArgs 0 0 0 0 0 0 None None false)
-      (mkC 0 0 0 0 0 0 None None []) (mkS [] [] [] None None) (mkW None None false) None.
+      (mkC 0 0 0 0 0 0 None None []) (mkS [] [] [] None None) (mkW None None false) (mkRB 0 0 0 0 0 0) None.
 Definition gen_at (sid : Z) : gen := nth (Z.to_nat sid) gen_table dummy_gen.
 
 Definition run_C02 (mode : Z) (v : Val) : Val :=
@@ -114,7 +128,9 @@ Definition run_C02 (mode : Z) (v : Val) : Val :=
     match find_protocol (g_name g) with
     | None => VZ (-1)
     | Some p =>
-      match expected (pr_layout p) (pr_kind p =? 2) (dec_table (nthV 1 v)) (map dec_mate (getL (nthV 2 v))) with
+      match (if pr_kind p =? 4
+             then expected_rb (pr_layout p) (pr_extra p) (dec_table (nthV 1 v)) (map dec_mate (getL (nthV 2 v)))
+             else expected (pr_layout p) (pr_kind p =? 2) (dec_table (nthV 1 v)) (map dec_mate (getL (nthV 2 v)))) with
       | None => VZ 2      (* the protocol's barcode is not on the whitelist: nothing may be accepted *)
       | Some e => ofB (orecs_eqb e (map dec_orec (getL (nthV 3 v))))
       end
